@@ -172,7 +172,7 @@ class SimulationProblem(DataStoreAccessor):
         self.__extra_variables_symbols = [v.symbol for v in self.__extra_variables]
 
         # Store the types in an AliasDict
-        self.__python_types = AliasDict(self.alias_relation)
+        self.__python_types = AliasDict(self.alias_relation, signed_values=False)
         model_variable_types = [
             "states",
             "der_states",
@@ -186,7 +186,7 @@ class SimulationProblem(DataStoreAccessor):
                 self.__python_types[v.symbol.name()] = v.python_type
 
         # Store the nominals in an AliasDict
-        self.__nominals = AliasDict(self.alias_relation)
+        self.__nominals = AliasDict(self.alias_relation, signed_values=False)
         for v in itertools.chain(self.__pymoca_model.states, self.__pymoca_model.alg_states):
             sym_name = v.symbol.name()
 
